@@ -28,6 +28,9 @@ FAILING = {
         ("groupedit", "u2", "rm_item", "e1"), ("groupedit", "o1", "append_item", "nope+"), ("groupedit", "o1", "append_item", "C+"), ("groupedit", "o1", "prepend_item", "C-"),
         ("groupedit", "o1", "append_item", "C"), ("groupedit", "o1", "append_item", "u1+"), ("groupedit", "o1", "append_item", "o1+"), ("groupedit", "o1", "append_item", ""),
         ("groupedit", "o3", "append_item", "A-"), ("groupedit", "u4", "add_item", "u4"),
+        # items that are refused for another reason than 'does not continue the path': a gap (not an item of a walk), an edge that is not adjacent
+        ("groupedit", "o1", "append_item", "g1+"), ("groupedit", "o1", "prepend_item", "g1-"), ("groupedit", "o2", "append_item", "g1+"), ("groupedit", "o1", "append_item", "e3+"),
+        ("groupedit", "o5", "append_item", "g1+"),
     ],
 }
 
